@@ -26,15 +26,15 @@ theorem preBody_name (e : List (List UInt8)) (l : List UInt8) (k : Bool) (fi : U
 theorem preBody_blank (e : List (List UInt8)) (l : List UInt8) (k : Bool) (fi : UInt8) (v cur ln : Nat) (b : UInt8)
     (hb : isBlank b = true) :
     preBody cfgB (Stt e l k fi v cur ln) b = .more (Stt e l k fi v Flag.name ln) := by
-  have hb' : b = 32 ∨ b = 9 := by simpa [isBlank] using hb
-  have h0 : b ≠ 0 := by rcases hb' with h | h <;> subst h <;> decide
-  have h10 : b ≠ 10 := by rcases hb' with h | h <;> subst h <;> decide
-  have h61 : b ≠ 61 := by rcases hb' with h | h <;> subst h <;> decide
-  have h123 : b ≠ 123 := by rcases hb' with h | h <;> subst h <;> decide
-  have h125 : b ≠ 125 := by rcases hb' with h | h <;> subst h <;> decide
-  have hsp : isspace b = true := by rcases hb' with h | h <;> subst h <;> decide
+  have hb' : b = 32 ∨ b = 9 ∨ b = 11 ∨ b = 12 ∨ b = 13 := by simpa [isBlank, or_assoc] using hb
+  have h0 : b ≠ 0 := by rcases hb' with h | h | h | h | h <;> subst h <;> decide
+  have h10 : b ≠ 10 := by rcases hb' with h | h | h | h | h <;> subst h <;> decide
+  have h61 : b ≠ 61 := by rcases hb' with h | h | h | h | h <;> subst h <;> decide
+  have h123 : b ≠ 123 := by rcases hb' with h | h | h | h | h <;> subst h <;> decide
+  have h125 : b ≠ 125 := by rcases hb' with h | h | h | h | h <;> subst h <;> decide
+  have hsp : isspace b = true := by rcases hb' with h | h | h | h | h <;> subst h <;> decide
   have hcom : cfgB.fmt.isComment b = false := by
-    rw [hashOnly_B.isComment]; rcases hb' with h | h <;> subst h <;> decide
+    rw [hashOnly_B.isComment]; rcases hb' with h | h | h | h | h <;> subst h <;> decide
   unfold preBody
   simp [h0, h10, h61, h123, h125, hsp, hcom]
 
@@ -80,9 +80,9 @@ theorem run_blanks (e : List (List UInt8)) (fi : UInt8) (v ln : Nat) :
   | cons b r ih =>
     intro l h
     simp only [List.all_cons, Bool.and_eq_true] at h
-    have hb' : b = 32 ∨ b = 9 := by simpa [isBlank] using h.1
-    have h0 : b ≠ 0 := by rcases hb' with h | h <;> subst h <;> decide
-    have h10' : (b == 10) = false := by rcases hb' with h | h <;> subst h <;> decide
+    have hb' : b = 32 ∨ b = 9 ∨ b = 11 ∨ b = 12 ∨ b = 13 := by simpa [isBlank, or_assoc] using h.1
+    have h0 : b ≠ 0 := by rcases hb' with h | h | h | h | h <;> subst h <;> decide
+    have h10' : (b == 10) = false := by rcases hb' with h | h | h | h | h <;> subst h <;> decide
     simp only [runSteps, preStep, save_stt _ _ _ _ _ _ _ _ h0, addchar_keep, h10']
     rw [preBody_blank _ _ _ _ _ _ _ _ h.1]
     simp only [Bool.false_eq_true, ↓reduceIte]
@@ -301,9 +301,9 @@ theorem visSkip_blanks (bs : List UInt8) (h : bs.all isBlank = true) : visSkip f
   | nil => rfl
   | cons b r ih =>
     simp only [List.all_cons, Bool.and_eq_true] at h
-    have hb' : b = 32 ∨ b = 9 := by simpa [isBlank] using h.1
-    have h0 : (b == 0) = false := by rcases hb' with h | h <;> subst h <;> decide
-    have hsp : isspace b = true := by rcases hb' with h | h <;> subst h <;> decide
+    have hb' : b = 32 ∨ b = 9 ∨ b = 11 ∨ b = 12 ∨ b = 13 := by simpa [isBlank, or_assoc] using h.1
+    have h0 : (b == 0) = false := by rcases hb' with h | h | h | h | h <;> subst h <;> decide
+    have hsp : isspace b = true := by rcases hb' with h | h | h | h | h <;> subst h <;> decide
     simp only [visSkip, h0, hsp, Bool.false_eq_true, ↓reduceIte]
     exact ih h.2
 
@@ -391,9 +391,24 @@ theorem visSkip_trail (tr : List UInt8) (h : trailOk tr = true) : visSkip false 
 
 /-- everything in front of the first character of a line: left-over of the previous line, blank and
     comment lines, indentation -/
+theorem LineDecor.ok_base (d : LineDecor) (h : d.ok = true) : d.okBase = true := by
+  unfold LineDecor.ok at h
+  simp only [Bool.and_eq_true] at h
+  exact h.1
+
+/-- the decoration of the end line of an empty section is a valid line decoration -/
+theorem LineDecor.ok_close (d : LineDecor) (c : CloseDecor) (h : d.ok = true) (hc : d.close = some c) :
+    c.line.ok = true := by
+  unfold LineDecor.ok at h
+  simp only [Bool.and_eq_true, hc] at h
+  unfold LineDecor.ok
+  simp only [Bool.and_eq_true]
+  exact ⟨h.2, rfl⟩
+
 theorem visSkip_lead (J : List UInt8) (dl : LineDecor) (hJ : visSkip false J = some false) (hd : dl.ok = true) :
     visSkip false (J ++ dl.before ++ dl.indent) = some false := by
-  unfold LineDecor.ok at hd
+  have hd := LineDecor.ok_base dl hd
+  unfold LineDecor.okBase at hd
   simp only [Bool.and_eq_true] at hd
   obtain ⟨⟨⟨⟨⟨hb, hi⟩, _⟩, _⟩, _⟩, _⟩ := hd
   have h1 : visSkip false dl.before = some false := by
@@ -436,9 +451,46 @@ theorem visSkip_headTrail (tr : List UInt8) (h : headTrailOk tr = true) : visSki
 theorem LineDecor.ok_parts (d : LineDecor) (h : d.ok = true) :
     d.pre.all isBlank = true ∧ d.post.all isBlank = true ∧ trailOk d.trail = true
       ∧ headTrailOk (headTrail d) = true := by
-  unfold LineDecor.ok at h
+  have h := LineDecor.ok_base d h
+  unfold LineDecor.okBase at h
   simp only [Bool.and_eq_true] at h
   obtain ⟨⟨⟨⟨⟨_, _⟩, h3⟩, h4⟩, h5⟩, h6⟩ := h
   exact ⟨h3, h4, h5, h6⟩
+
+/-- skipping a text skips every prefix of it -/
+theorem visSkip_prefix : ∀ (a b : List UInt8) (x z : Bool), visSkip x (a ++ b) = some z → ∃ y, visSkip x a = some y := by
+  intro a
+  induction a with
+  | nil => intro b x z _; exact ⟨x, rfl⟩
+  | cons c r ih =>
+    intro b x z h
+    cases x with
+    | true =>
+      simp only [List.cons_append, visSkip] at h ⊢
+      split at h
+      · rename_i hc; simp only [hc, ↓reduceIte]; exact ih b _ z h
+      · rename_i hc; simp only [hc, ↓reduceIte]; exact ih b _ z h
+    | false =>
+      simp only [List.cons_append, visSkip] at h ⊢
+      split at h
+      · cases h
+      · rename_i h0
+        simp only [h0, ↓reduceIte]
+        split at h
+        · rename_i hs; simp only [hs, ↓reduceIte]; exact ih b _ z h
+        · rename_i hs
+          simp only [hs, ↓reduceIte]
+          split at h
+          · rename_i h35; simp only [h35, ↓reduceIte]; exact ih b _ z h
+          · cases h
+
+/-- the text behind the last element is skipped up to the end of the input -/
+theorem visSkip_endText (J : List UInt8) (dl : LineDecor) (hJ : visSkip false J = some false) (hd : dl.ok = true) :
+    ∃ b, visSkip false (J ++ endText dl) = some b := by
+  obtain ⟨_, _, _, hht⟩ := LineDecor.ok_parts dl hd
+  obtain ⟨b, hb⟩ := visSkip_prefix (headTrail dl) [10] false false (visSkip_headTrail _ hht)
+  refine ⟨b, ?_⟩
+  have := visSkip_append _ _ _ _ _ (visSkip_lead J dl hJ hd) hb
+  simpa [endText, List.append_assoc] using this
 
 end Mpt.Parse
